@@ -406,7 +406,7 @@ Proof.
   intros HC. unfold pop_ctrl. rewrite HC. destruct (pop_opds (fr_end F) s) as [s1|] eqn:E; [|discriminate].
   destruct (pop_opds_spec' _ _ _ _ _ HC E) as (F1 & HC1 & HS1 & HU1 & HP1). rewrite HC1.
   destruct (opds F1) eqn:EO; [|discriminate]. intros H; inversion H; subst. repeat split; auto.
-  specialize (HP1 []). rewrite app_nil_r in HP1. apply HP1. rewrite EO. apply conc_nil.
+  specialize (HP1 []). rewrite app_nil_r in HP1. apply HP1. apply conc_nil.
 Qed.
 
 Lemma vrun_strict_cons c s F K o r sf : vs_ctrls s = F :: K -> vrun_strict c s (o :: r) = Some sf ->
